@@ -323,6 +323,14 @@ impl C18 {
                         format!("{reply}\nprinted text: {text}"),
                     );
                 }
+                if field(&reply, "repr") == "1" && field(&reply, "nspec") != "1" {
+                    out.fail(
+                        Kind::ImplVsSpec,
+                        stream,
+                        "round trip (Lean parser on the real text): result is not the normalised list",
+                        format!("{reply}\nprinted text: {text}"),
+                    );
+                }
                 if expr && field(&reply, "spec") != "1" {
                     out.fail(
                         Kind::ImplVsSpec,
@@ -574,7 +582,12 @@ impl C18 {
     fn run_big(&mut self, kind: &str, n: usize, out: &mut CaseOutcome) {
         out.tag(format!("big:{kind}"));
         out.nontrivial = true;
-        let exe = std::env::current_exe().expect("current exe");
+        // /proc/self/exe still works when the binary has been rebuilt (unlinked) meanwhile
+        let exe = if std::path::Path::new("/proc/self/exe").exists() {
+            std::path::PathBuf::from("/proc/self/exe")
+        } else {
+            std::env::current_exe().expect("current exe")
+        };
         let st = std::process::Command::new(exe)
             .env("C18_BIG", format!("{kind} {n}"))
             .stdout(std::process::Stdio::null())
